@@ -462,6 +462,10 @@ def check(run):
     check_alternation(run, A)
     check_plumbing(run, A)
     check_options(run, A)
+    # the aligner between E- and M-step reorders posterior and quadratic form with ONE mapping and by the same gather (shared rule instance with C14):
+    # otherwise the cACG M-step of class k pairs the posterior of class k with the quadratic form of another class
+    from . import c14
+    c14.check_inline_em_alignment(run, A)
     from .. import reshape as _rs
     _n = _rs.check_reshapes(run, A, [D + 'gcacgmm::GCACGMMTrainer.fit', D + 'vmfcacgmm::VMFCACGMMTrainer.fit', D + 'gcacgmm::GCACGMM.predict', D + 'vmfcacgmm::VMFCACGMM.predict'])
     run.floor('reshapes of the integration models with resolved axis order', _n, 4)
